@@ -85,7 +85,7 @@ func schedCase(id int, dir string, c *Case, args []string, run *Run) {
 	// in-process repetitions: new maps, new goroutine interleavings, warmed caches
 	inproc := 1
 	for i := 0; i < 3; i++ {
-		again := runPipeline(defaultsUsed, args)
+		again := runPipelineStdin(defaultsUsed, args)
 		if again.Err != "" || !bytes.Equal(again.text, run.text) || !bytes.Equal(again.csv, run.csv) || !bytes.Equal(again.errCSV, run.errCSV) {
 			inproc = 0
 		}
@@ -107,7 +107,7 @@ func schedCase(id int, dir string, c *Case, args []string, run *Run) {
 	// history: the same call before and after calls with other -alpha values, in ONE process of
 	// the real entry point (hook hooks/benchstat_history.go); its output must not depend on them
 	hist := 1
-	if plainBin != "" {
+	if plainBin != "" && c.Stdin == "" { // standard input cannot be read twice in one process
 		if d := historyCheck(dir, c, args, run); d != "" {
 			hist = 0
 			detail = "history: " + d
